@@ -146,6 +146,7 @@ var whitelist = []spec{
 	{pkg: "datafile", recv: "DataFile", fn: "zeroUntilEnd", fuel: []string{"fileSize.toNat + 1"}},
 	{pkg: "datafile", recv: "DataReader", fn: "endOfLog"},
 	{pkg: "datafile", recv: "DataReader", fn: "next", fuel: []string{"file.size + 1"}},
+	{pkg: "datafile", recv: "DataFile", fn: "Truncate"},
 	{pkg: "index", fn: "nextPowerOfTwo"},
 	{pkg: "fio", recv: "MMap", fn: "remap", slice: &sliceSpec{assignTo: "m.endOff", lean: "remap_endOff", guard: "remap_covered"}},
 }
@@ -269,6 +270,30 @@ defer putBuf(M_B)`,
 		writes:   "M_B",
 		usesFile: true,
 		apply:    func(t *tr, b map[string]ast.Node, o *out, ind string) { t.applyRead(b, o, ind, true) },
+	},
+	{
+		// (round 3) the file is cut to M_SIZE bytes; the truncation is assumed to succeed (error branch dropped).
+		// The content of the file becomes a state field `file_` (initially the abstract parameter `file`) and
+		// its final value the last component of the result.
+		name: "truncate",
+		pattern: `if M_ERR := M_RECV.ReadWriter.Truncate(M_SIZE); M_ERR != nil {
+	return M_ERR
+}`,
+		tmps:     []string{"M_ERR"},
+		usesFile: true,
+		apply: func(t *tr, b map[string]ast.Node, o *out, ind string) {
+			if t.inLoop {
+				failAt(b["M_SIZE"], "effect truncate inside a loop is outside the subset")
+			}
+			x, k := t.expr(b["M_SIZE"].(ast.Expr))
+			if k.k != kInt {
+				failAt(b["M_SIZE"], "effect truncate: size of kind %s", k.goName())
+			}
+			t.noPending(b["M_SIZE"])
+			t.useAbstract(absFile)
+			t.r3.truncated = true
+			o.add(ind, "let st : "+t.leanName+".St := { st with file_ := st.file_.extract 0 "+par(x)+".toNat }")
+		},
 	},
 }
 
@@ -2349,6 +2374,9 @@ func (t *tr) retInner(vals []string) (string, bool) {
 	if len(t.r3.recvMut) > 0 {
 		r, atom = "("+r+", @RECVOUT@)", true // (round 3) final values of the assigned receiver fields
 	}
+	if t.r3.truncated {
+		r, atom = "("+r+", st.file_)", true // (round 3) the content of the file after the function
+	}
 	return r, atom
 }
 
@@ -2771,6 +2799,7 @@ func (t *tr) function() string {
 	dry.abstract = append([]absParam{}, t.abstract...)
 	dry.terminal(fd.Body.List, &out{}, "  ", true)
 	t.hasEffects, t.hasOut = dry.hasEffects, dry.hasOut
+	t.r3.truncated = dry.r3.truncated // (round 3) known before the real pass: every return carries the file
 	if t.hasEffects && t.hasOut {
 		failAt(fd, "segment effects and byte-append effects in one function are outside the subset")
 	}
@@ -2808,6 +2837,9 @@ func (t *tr) function() string {
 	}
 	if t.hasOut {
 		flds = append(flds, fld{"out", "ByteArray", "ByteArray.empty", "bytes appended to the output buffer so far"})
+	}
+	if t.r3.truncated {
+		flds = append(flds, fld{"file_", "ByteArray", "file", "content of the file behind the receiver's ReadWriter (cut by the truncate effect)"})
 	}
 	fmt.Fprintf(&sb, "/-- mutable locals of `%s` -/\n", fd.Name.Name)
 	fmt.Fprintf(&sb, "structure %s where\n", stName)
@@ -2851,6 +2883,9 @@ func (t *tr) function() string {
 	recvOut, recvOutTy, recvOutDoc := t.recvOuts()
 	if len(recvOut) > 0 {
 		rt = "(" + rt + ") × " + strings.Join(recvOutTy, " × ")
+	}
+	if t.r3.truncated {
+		rt = "(" + rt + ") × ByteArray"
 	}
 	// loop helpers: only the parameters that occur
 	argsFor := map[int][]param{}
@@ -2911,6 +2946,9 @@ func (t *tr) function() string {
 	}
 	if len(recvOut) > 0 {
 		sb.WriteString("\n    result = (Go results, final values of the assigned receiver fields " + strings.Join(recvOutDoc, ", ") + ")")
+	}
+	if t.r3.truncated {
+		sb.WriteString("\n    the last component of the result is the content of the file after the function")
 	}
 	sb.WriteString(" -/\n")
 	fmt.Fprintf(&sb, "def %s %s: %s :=\n", t.leanName, declOf(all), rt)
@@ -3123,6 +3161,7 @@ func main() {
 	sb.WriteString("   Go subset, the effect / primitive tables and the integer semantics.  The equalities with the\n")
 	sb.WriteString("   hand-written model are proved in XixiKV/Proofs/TransEq.lean and TransEq2.lean. -/\n")
 	sb.WriteString("namespace XixiKV.Generated.Trans\n\n")
+	sb.WriteString("set_option linter.unusedVariables false -- (`fun st => some true` after a loop whose state is not used again)\n\n")
 	sb.WriteString(prelude)
 	for _, dir := range order {
 		p := pkgs[dir]
